@@ -674,18 +674,16 @@ func (s *socket) Close(discard bool) {
 	if length := s.writeBuffer.Len(); length > 0 {
 		socket_log.Debug("there are %d remaining packets in the buffer, closing the transport once they are handed over", length)
 		vhook.Yield("socket.Close.buffered")
-		// whoever hands the last buffered packet to the transport closes it (finishClose):
-		// a flush running on another goroutine right now, a later one, or the flush below.
-		// (Waiting for the next 'drain' event instead would miss a drain emitted by
-		// another goroutine just before the listener exists, and would take the drain
-		// of an earlier batch for it when called from a 'flush' listener after a Send.)
-		s.closeWhenDrained.Store(&discard)
-		s.flush()
-		return
 	}
-
-	socket_log.Debug("the buffer is empty, closing the transport right away")
-	s.closeTransport(discard)
+	// whoever hands the last buffered packet to the transport closes it (finishClose):
+	// a flush running on another goroutine right now, a later one, or the flush below.
+	// (Waiting for the next 'drain' event instead would miss a drain emitted by
+	// another goroutine just before the listener exists, and would take the drain
+	// of an earlier batch for it when called from a 'flush' listener after a Send.
+	// Closing at once because the buffer looks empty would overtake a batch that a
+	// flush on another goroutine has taken from the buffer and not yet handed over.)
+	s.closeWhenDrained.Store(&discard)
+	s.flush()
 }
 
 // Closes the underlying transport.
